@@ -93,14 +93,20 @@ structure Cfg where
                           -- string (legacy) – HA's "response required" test is an identity test on the enum
   skipDup : Bool          -- a name the holder already tracks is not registered again (legacy, since the repair of
                           -- `trigger_init`: `if srv_name in self.trigger_service: continue`)
+  dropDelayed : Bool      -- a manager whose function dies before the delayed start is taken out of `dms_delay_start`
+                          -- (new, since the repair of `on_func_var_deleted`); before, it stayed scheduled
+  orderedStart : Bool     -- `GlobalContext.start()` creates the start tasks in definition order (`dms_order`, new since
+                          -- the repair); before, in the iteration order of the set `dms_delay_start`
 deriving DecidableEq, Repr
 
 /-- the two subsystems as the source has them now: the repair switches are read off the source by the extractor -/
-def legacyCfg : Cfg := ⟨true, false, false, false, false, PsModel.Gen.LEGACY_SKIPS_DUPLICATE⟩
-def newCfg : Cfg := ⟨false, PsModel.Gen.SERVICE_OWNER_IS_EVALUATOR, true, true, true, false⟩
-/-- … and as they were before the `fix:` commits (findings C12-F2, C12-F3) -/
-def legacyPreFix : Cfg := ⟨true, false, false, false, false, false⟩
-def newPreFix : Cfg := ⟨false, true, true, true, true, false⟩
+def legacyCfg : Cfg := ⟨true, false, false, false, false, PsModel.Gen.LEGACY_SKIPS_DUPLICATE, false, false⟩
+def newCfg : Cfg :=
+  ⟨false, PsModel.Gen.SERVICE_OWNER_IS_EVALUATOR, true, true, true, false,
+   PsModel.Gen.DELETED_BEFORE_START_DISCARDED, PsModel.Gen.START_IN_DEFINITION_ORDER⟩
+/-- … and as they were before the `fix:` commits (findings C12-F2, C12-F3, C12-F4, C12-F5) -/
+def legacyPreFix : Cfg := ⟨true, false, false, false, false, false, false, false⟩
+def newPreFix : Cfg := ⟨false, true, true, true, true, false, false, false⟩
 
 inductive Status | delayed | running
 deriving DecidableEq, Repr
@@ -149,26 +155,28 @@ def startHolder (cfg : Cfg) (h : Holder) (a : Acq) : Option Holder :=
   if a.ok || !cfg.rollback then some { h with pending := [], tracked := a.tracked, status := .running } else none
 
 /-- the function variable `(ctx, var)` loses the object `h` refers to (`__del__` / `weakref.finalize`) -/
-def dropReg (r : Reg) (h : Holder) : Reg :=
+def dropReg (cfg : Cfg) (r : Reg) (h : Holder) : Reg :=
   match h.status with
   | .running => releaseList r h.tracked
-  | .delayed => r
-def dropHolder (h : Holder) : Option Holder :=
+  | .delayed => if cfg.dropDelayed then releaseList r h.tracked else r     -- nothing started yet: `tracked = []`
+def dropHolder (cfg : Cfg) (h : Holder) : Option Holder :=
   match h.status with
   | .running => none
-  | .delayed => some { h with bound := false }       -- still in `dms_delay_start`: it WILL be started
+  | .delayed =>
+    if cfg.dropDelayed then none                       -- discarded from `dms_delay_start` / `dms`, marked STOPPED
+    else some { h with bound := false }                -- (before the repair) still in `dms_delay_start`: it WILL be started
 
 def isVar (ctx var : String) (h : Holder) : Bool := h.bound && h.ctx == ctx && h.var == var
 
 /-- the bound holders of `(ctx, var)` are dropped -/
-def unbindReg (r : Reg) (ctx var : String) : List Holder → Reg
+def unbindReg (cfg : Cfg) (r : Reg) (ctx var : String) : List Holder → Reg
   | [] => r
-  | h :: hs => if isVar ctx var h then unbindReg (dropReg r h) ctx var hs else unbindReg r ctx var hs
-def unbindHolders (ctx var : String) : List Holder → List Holder
+  | h :: hs => if isVar ctx var h then unbindReg cfg (dropReg cfg r h) ctx var hs else unbindReg cfg r ctx var hs
+def unbindHolders (cfg : Cfg) (ctx var : String) : List Holder → List Holder
   | [] => []
   | h :: hs =>
-    if isVar ctx var h then (dropHolder h).toList ++ unbindHolders ctx var hs
-    else h :: unbindHolders ctx var hs
+    if isVar ctx var h then (dropHolder cfg h).toList ++ unbindHolders cfg ctx var hs
+    else h :: unbindHolders cfg ctx var hs
 
 inductive Op
   | define (ctx : String) (fn : Option String) (var : String) (gen : Nat) (decl : List (Svc × Resp))
@@ -184,13 +192,13 @@ def newHolder (cfg : Cfg) (ctx : String) (fn : Option String) (var : String) (ge
 def defineStep (cfg : Cfg) (st : MState) (ctx : String) (fn : Option String) (var : String) (gen : Nat)
     (decl : List (Svc × Resp)) : MState :=
   if cfg.delayTopLevel && fn.isNone then
-    { st with reg := unbindReg st.reg ctx var st.holders,
-              holders := unbindHolders ctx var st.holders ++ [newHolder cfg ctx fn var gen decl] }
+    { st with reg := unbindReg cfg st.reg ctx var st.holders,
+              holders := unbindHolders cfg ctx var st.holders ++ [newHolder cfg ctx fn var gen decl] }
   else
     -- the new definition is registered first, then the old function object dies
     { st with
-      reg := unbindReg (startReg cfg (acquireAll cfg (ownerFor cfg ctx fn) gen st.reg decl [])) ctx var st.holders,
-      holders := unbindHolders ctx var st.holders ++
+      reg := unbindReg cfg (startReg cfg (acquireAll cfg (ownerFor cfg ctx fn) gen st.reg decl [])) ctx var st.holders,
+      holders := unbindHolders cfg ctx var st.holders ++
         (startHolder cfg (newHolder cfg ctx fn var gen decl) (acquireAll cfg (ownerFor cfg ctx fn) gen st.reg decl [])).toList }
 
 /-- one registration event of `GlobalContext.start()`: the next pending declaration of the delayed holder `g` -/
@@ -233,6 +241,14 @@ def startEvents (cfg : Cfg) (ctx : String) : MState → List Nat → MState
 def startDone (ctx : String) (st : MState) : MState :=
   { st with inadm := st.inadm || st.holders.any (fun h => h.ctx == ctx && h.status == .delayed) }
 
+/-- the managers `GlobalContext.start()` has to start, in definition order -/
+def delayedGens (ctx : String) (hs : List Holder) : List Nat :=
+  (hs.filter (fun h => h.ctx == ctx && h.status == .delayed && !h.pending.isEmpty)).map (·.gen)
+
+/-- with the start tasks created in definition order, the *first* registration of each manager comes in that order
+(later decorators of a manager may interleave with other managers: `start()` awaits between decorators) -/
+def startOrderOK (ctx : String) (hs : List Holder) (events : List Nat) : Bool := events.eraseDups == delayedGens ctx hs
+
 def unloadReg (ctx : String) : Reg → List Holder → Reg
   | r, [] => r
   | r, h :: hs =>
@@ -241,8 +257,13 @@ def unloadReg (ctx : String) : Reg → List Holder → Reg
 
 def step (cfg : Cfg) (st : MState) : Op → MState
   | .define ctx fn var gen decl => defineStep cfg st ctx fn var gen decl
-  | .start ctx events => if cfg.delayTopLevel then startDone ctx (startEvents cfg ctx st events) else st
-  | .delete ctx var => { st with reg := unbindReg st.reg ctx var st.holders, holders := unbindHolders ctx var st.holders }
+  | .start ctx events =>
+    if cfg.delayTopLevel then
+      { startDone ctx (startEvents cfg ctx st events) with
+        inadm := (startDone ctx (startEvents cfg ctx st events)).inadm ||
+                 (cfg.orderedStart && !startOrderOK ctx st.holders events) }
+    else st
+  | .delete ctx var => { st with reg := unbindReg cfg st.reg ctx var st.holders, holders := unbindHolders cfg ctx var st.holders }
   | .unload ctx => { st with reg := unloadReg ctx st.reg st.holders, holders := st.holders.filter (fun h => h.ctx != ctx) }
 
 def run (cfg : Cfg) : MState → List Op → MState
